@@ -122,7 +122,7 @@ func diffInternal(e, f []*etree.Element, equals func(*etree.Element, *etree.Elem
  * pyMod x%y as (x+y) % y
  */
 func pyMod(x, y int) int {
-	return (x + y) % y
+	return ((x % y) + y) % y
 }
 
 // equalLeafs checks if two etree leaf nodes are equal.
